@@ -7,9 +7,10 @@ from __future__ import annotations
 
 import copy
 import json
+import re
 
 import c10
-from c10 import (DEFAULT_CERT, FAIL_BUILD, FAIL_LEX, Unmodelled, canon, case_term, cpath, flat_term, fn, op_term,
+from c10 import (DEFAULT_CERT, FAIL_BUILD, FAIL_LEX, Unmodelled, canon, case_term, cpath, flat_term, fn, op_term,  # noqa
                  real_result, run_jobs)
 from lib import Check, coq_list, coq_str, known_for, parse_nat_list, run_coq_files
 
@@ -25,6 +26,56 @@ PROPOSED_KNOWN = {
              "compiling.py:72-81 make_cert writes in place, 189-199 read_cert trusts the content",
         match=dict(crash_op="write", path="data/<ns>/jmc.txt", torn=True, model_agrees=True)),
 }
+
+PROPOSED_KNOWN["C11-dropped-override-left-behind"] = dict(
+    id="C11-dropped-override-left-behind", property="C11",
+    what="a build does not know which namespaces the previous build overrode or linked: when `#override foo` / `#link foo` is dropped "
+         "from the header, the files the earlier build wrote into data/foo stay (the fresh build has none) - compiling.py build(): "
+         "overrides_folders comes from the current header only, jmc.txt records no namespaces; deleting a folder the header does not "
+         "declare would violate C10; theorem C11_dropped_override_refuted",
+    match=dict(rcode_bit=8, stale_paths="strictly inside data/<o>, o in the overrides of an earlier successful build of the history "
+               "and not of this one", every_other_owned_path="equal to the fresh build", model_agrees=True))
+
+# repair exists as a patch that /repo does not contain yet (see c10.PENDING_FIXES for the protocol)
+PENDING_FIXES = {
+    "C11-stale-own-tick-entry": dict(
+        id="C11-stale-own-tick-entry", property="C11", patch="fixes/C11-stale-own-tick-entry.patch",
+        what="a tick.json that outlives the rebuild (inside a #static folder such as `#static \"../minecraft\"`, brought by #copy, or left in a "
+             "tree whose namespace folder was removed by hand) keeps naming <ns>:__tick__ after the tick function is gone: load.json is "
+             "always rewritten without the pack's stale entries, tick.json only when a tick function exists - compiling.py build(); "
+             "theorem C11_stale_tick_refuted_hardened; repaired by fixes/C11-stale-own-tick-entry.patch",
+        match=dict(rcode_bit=2, differing_paths="only data/minecraft/tags/function(s)/tick.json inside a #static folder",
+                   difference="the recovered values minus the entries `<ns>:...` are the fresh values", model_agrees=True)),
+}
+
+
+def stale_tick_only(job: dict, b_rec: dict, oracle: list) -> bool:
+    """the recovered tree differs from the oracle, inside the folders the build deletes, ONLY at a tick.json shielded by a #static
+    folder, and only by entries of this pack"""
+    ns = job.get("ns", "ns")
+    f = b_rec["facts"]
+    root = f["root"]
+    statics = [s[len(root) + 1:] for s in f.get("statics", []) if s.startswith(root + "/")]
+    roots = [f"data/{ns}", "data/minecraft"] + [f"data/{o}" for o in f.get("overrides", [])]
+    got = {p: t for p, t in b_rec["after"] if t is not None}
+    want = {p: t for p, t in oracle if t is not None}
+    diff = [p for p in set(got) | set(want) if got.get(p) != want.get(p) and any(p.startswith(r + "/") for r in roots)]
+    if not diff:
+        return False
+    for p in diff:
+        if p not in ("data/minecraft/tags/function/tick.json", "data/minecraft/tags/functions/tick.json"):
+            return False
+        if not any(p.startswith(st + "/") for st in statics):
+            return False
+        try:
+            have = json.loads(got[p])["values"] if p in got else []
+            fresh = json.loads(want[p])["values"] if p in want else []
+        except (ValueError, KeyError):
+            return False
+        if [v for v in have if not v.startswith(ns + ":")] != fresh or have == fresh:
+            return False
+    return True
+
 
 # ----------------------------------------------------------------------------------- generators
 
@@ -64,14 +115,15 @@ def static_edits(rng, content: list, counter: list) -> dict:
     return out
 
 
-def project(rng, overrides, statics, copy_ok, tick=None, fail=None):
+def project(rng, overrides, statics, copy_ok, tick=None, fail=None, directive=None):
+    """directive: {namespace: "override" | "link"} - both feed Header.namespace_overrides (default: #override)"""
     parts = [p for p in PARTS if rng.random() < 0.4] or [fn("f")]
     if tick if tick is not None else rng.random() < 0.5:
         parts.append(TICK)
     for o in overrides:
         parts += [p for p in c10.OVERRIDE_PARTS[o] if rng.random() < 0.7] or [c10.OVERRIDE_PARTS[o][0]]
     rng.shuffle(parts)
-    hl = [f"#override {o}" for o in overrides] + [f'#static "{s}"' for s in statics]
+    hl = [f"#{(directive or {}).get(o, 'override')} {o}" for o in overrides] + [f'#static "{s}"' for s in statics]
     if copy_ok and rng.random() < 0.5:
         hl.append('#copy "cp"')
     if rng.random() < 0.1:
@@ -93,6 +145,11 @@ def gen_history(rng) -> dict:
     if rng.random() < 0.5:
         init += [["readme.txt", "hi"], ["data/other/function/a.mcfunction", "say a"]]
     overrides = [o for o in ("foo", "bar") if rng.random() < 0.3]
+    # every directive that feeds namespace_overrides: #override, #link; the pack's own namespace through #link while the tree
+    # accepts it (a header error once fixes/C10-reject-non-namespace-override.patch is in: then it is left out)
+    if rng.random() < 0.25 and not c10.detect_variant().get("ns_checked"):
+        overrides.append("ns")
+    directive = {o: ("link" if o == "ns" or rng.random() < 0.35 else "override") for o in overrides}
     use_static = rng.random() < 0.3
     copy_src = None
     if rng.random() < 0.35:
@@ -106,7 +163,7 @@ def gen_history(rng) -> dict:
     counter = [0]
     for i in range(n_prefix):
         fail = rng.choice([None, None, None, "lex", "build", "header"]) if i > 0 or rng.random() < 0.3 else None
-        b = project(rng, overrides, statics, copy_src is not None, fail=fail)
+        b = project(rng, overrides, statics, copy_src is not None, fail=fail, directive=directive)
         if fail is None and rng.random() < 0.15:
             b["oserror_path"] = rng.choice(["data/ns/jmc.txt", "data/ns/function", "data/minecraft/tags/function/load.json"])
         builds.append(b)
@@ -116,11 +173,17 @@ def gen_history(rng) -> dict:
             touch = [["data/ns/keep/a.txt", "precious"], ["data/ns/keep/sub/b.txt", "more"]]
             if len(statics) > 1:
                 touch.append(["data/minecraft/keepmc/m.txt", "vanilla override"])
-            builds.append(dict(project(rng, overrides, statics, copy_src is not None), touch=touch))
+            builds.append(dict(project(rng, overrides, statics, copy_src is not None, directive=directive), touch=touch))
             static_touch = [list(t) for t in touch]
         elif statics and rng.random() < 0.6:
             b.update(static_edits(rng, static_touch, counter))
-    last = project(rng, overrides, statics, copy_src is not None)
+    last_over = overrides
+    if builds and [o for o in overrides if o != "ns"] and rng.random() < 0.3:
+        # the last project DROPS a directive an earlier build had: what that build wrote into data/<o> is not this build's to
+        # delete (C10) and stays (known finding C11-dropped-override-left-behind; any OTHER stale file is a violation)
+        gone = rng.choice([o for o in overrides if o != "ns"])
+        last_over = [o for o in overrides if o != gone]
+    last = project(rng, last_over, statics, copy_src is not None, directive=directive)
     if statics and rng.random() < 0.7:
         last.update(static_edits(rng, static_touch, counter))
     # (round 2) the pack format may change between builds, in both directions across 48
@@ -282,12 +345,79 @@ def fixed_histories() -> list[dict]:
         # a failed compile and a failed deletion in between
         dict(base, builds=[dict(src=A, header=None), dict(src='function g() { say "g" }', header=None),
                            dict(src=A, header=None, oserror_path="data/ns/function")], last=dict(src=B, header=None)),
+    ] + triage_histories()
+
+
+def triage_histories() -> list[dict]:
+    """(reports/C10C11-triage.md) directives that feed namespace_overrides other than `#override <foreign>`, override sets that
+    change, #static folders that ARE a deleted folder or shield the function tags."""
+    base = dict(ns="ns", pack_format="48", desc="d", out_exists=True, init=[], copy_src=None, statics=[])
+    A = "\n".join([TICK, fn("f"), 'new advancement(x.y) {"a":1}'])
+    B = fn("g")
+    hs = [
+        # `#link <own namespace>`: data/ns is then one of the override folders.  Deleted with them (before data/minecraft) a kill
+        # in that window leaves a tree without namespace folder whose stale tick.json the re-run keeps.  (Every crash point.)
+        dict(base, builds=[dict(src=A + "\n" + fn("ns.q"), header="#link ns")], last=dict(src=B, header="#link ns")),
+        dict(base, quick_light=True, builds=[dict(src=A + "\n" + fn("ns.q") + "\n" + fn("foo.h"), header="#link ns\n#override foo")],
+             last=dict(src=B + "\n" + fn("foo.i"), header="#override foo\n#link ns")),
+        # `#link <foreign>` deletes and writes data/foo like #override
+        dict(base, builds=[dict(src=A + "\n" + fn("foo.h") + "\n" + fn("foo.old.x"), header="#link foo")],
+             last=dict(src=B + "\n" + fn("foo.h"), header="#link foo")),
+        # a dropped directive (light): build 1 overrides foo and links bar, the last build only links bar
+        dict(base, light=True, builds=[dict(src=A + "\n" + fn("foo.h") + "\n" + fn("bar.x.y"), header="#override foo\n#link bar")],
+             last=dict(src=B + "\n" + fn("bar.x.z"), header="#link bar")),
+        dict(base, builds=[dict(src=A + "\n" + fn("foo.h"), header="#override foo"), dict(src=A, header=None)],
+             last=dict(src=B, header=None)),
+        # #static over the folder of the function tags: the tick function disappears, tick.json must not keep naming it
+        dict(base, statics=["../minecraft/tags/function"], static_touch=[["data/minecraft/tags/function/mine.json", canon(["other:x"])]],
+             builds=[dict(src=A, header=None),
+                     dict(src=A, header='#static "../minecraft/tags/function"', touch=[["data/minecraft/tags/function/mine.json", canon(["other:x"])]])],
+             last=dict(src=B, header='#static "../minecraft/tags/function"')),
+        # #static that IS data/minecraft / the folder of an overridden namespace (whose generated content does not change)
+        dict(base, quick_light=True, statics=["../minecraft"], static_touch=[["data/minecraft/loot_table/x.json", "{}"]],
+             builds=[dict(src=A, header=None),
+                     dict(src=A, header='#static "../minecraft"', touch=[["data/minecraft/loot_table/x.json", "{}"]])],
+             last=dict(src=B, header='#static "../minecraft"')),
+        dict(base, quick_light=True, statics=["../foo"], static_touch=[["data/foo/hand/k.txt", "k"]],
+             builds=[dict(src=A + "\n" + fn("foo.h"), header="#override foo"),
+                     dict(src=A + "\n" + fn("foo.h"), header='#override foo\n#static "../foo"', touch=[["data/foo/hand/k.txt", "k"]])],
+             last=dict(src=B + "\n" + fn("foo.h"), header='#static "../foo"\n#override foo')),
     ]
+    return hs
 
 
 # ----------------------------------------------------------------------------------- Coq terms
 
-def rcase_term(job, b_rec: dict, pre_snap, mid_snap, oracle_snap) -> str:
+def prev_overrides(builds: list, idx: int) -> list[str]:
+    """namespaces an EARLIER successful build of the same run overrode / linked and build idx does not (Run.C11 r_prev)"""
+    now = set(builds[idx]["facts"].get("overrides") or [])
+    seen: list[str] = []
+    for b in builds[:idx]:
+        if real_result(b) == "RDone":
+            for o in b["facts"].get("overrides") or []:
+                if o not in now and o not in seen and c10.plain_name(o):
+                    seen.append(o)
+    return seen
+
+
+def refused_for_tag(b_rec: dict) -> bool:
+    """The re-run stopped with JMC's MalformedJsonException / missing-"values" error for a function tag before any mutation.
+    After a kill this happens when the tag file is shielded by a #static folder (so the rebuild does not delete it) and the kill
+    fell into its non-atomic rewrite: the message tells the user to delete the file, nothing is modified - a refusal in the
+    sense of C11 (the theorem's static_safe hypothesis excludes statics that contain files the build writes)."""
+    return real_result(b_rec) == "RTagErr" and not b_rec["trace"] and b_rec["before"] == b_rec["after"]
+
+
+def shielded_tag_kill(job: dict, b_crash: dict) -> bool:
+    """the kill fell on the create / write of load.json | tick.json inside a #static folder"""
+    ev = b_crash["trace"][-1] if b_crash["trace"] else None
+    if not ev or ev[0] not in ("create", "write") or not re.fullmatch(r"data/minecraft/tags/functions?/(load|tick)\.json", ev[1]):
+        return False
+    root = b_crash["facts"]["root"]
+    return any((root + "/" + ev[1]).startswith(st + "/") for st in b_crash["facts"].get("statics", []))
+
+
+def rcase_term(job, b_rec: dict, pre_snap, mid_snap, oracle_snap, prev: list[str] | None = None) -> str:
     """(re-)run b_rec of job, compared with oracle_snap."""
     f = b_rec["facts"]
     ns, pf = job.get("ns", "ns"), f.get("pack_format") or job.get("pack_format", "48")
@@ -298,10 +428,13 @@ def rcase_term(job, b_rec: dict, pre_snap, mid_snap, oracle_snap) -> str:
     cfg = f"(mkCfg {coq_str(ns)} {coq_str(ff)} {coq_str(cert_text)} {coq_str(nm['LOAD'])} {coq_str(nm['TICK'])})"
     statics = [coq_list(coq_str(c) for c in c10.abs_to_model(s, f["root"])) for s in f.get("statics", [])]
     hdr = f"(mkHdr {coq_list(statics)} {coq_list(coq_str(o) for o in f.get('overrides', []))} None false)"
-    refused = real_result(b_rec) == "RRefused"
+    refused = real_result(b_rec) == "RRefused" or refused_for_tag(b_rec)
     trace = coq_list(op_term(ev, ff) for ev in b_rec["trace"])
+    if not c10.detect_variant().get("ns_checked") and not all(c10.plain_name(o) for o in f.get("overrides", [])):
+        raise Unmodelled("override namespaces")
     return (f"(mkR {cfg} {hdr} {'true' if refused else 'false'} {trace} {flat_term(pre_snap, ff)} "
-            f"{flat_term(mid_snap, ff)} {flat_term(b_rec['after'], ff)} {flat_term(oracle_snap, ff)})")
+            f"{flat_term(mid_snap, ff)} {flat_term(b_rec['after'], ff)} {flat_term(oracle_snap, ff)} "
+            f"{coq_list(coq_str(o) for o in (prev or []))})")
 
 
 def eval_rcodes(terms: list[str], per_file: int = 25, prefix: str = "rcases"):
@@ -326,7 +459,8 @@ def eval_rcodes(terms: list[str], per_file: int = 25, prefix: str = "rcases"):
 # ----------------------------------------------------------------------------------- the check
 
 RBITS = {1: "the re-run was refused but modified the tree", 2: "the recovered tree differs from the un-interrupted / fresh build",
-         4: "#static content changed"}
+         4: "#static content changed",
+         8: "a file of an earlier build survives in the folder of a namespace that build overrode / linked and this one does not"}
 
 
 def retry_override_orders(tmeta: list, codes: list, errs: list, prefix: str = "cases_perm") -> int:
@@ -362,7 +496,7 @@ def retry_override_orders(tmeta: list, codes: list, errs: list, prefix: str = "c
 
 
 def job_of(h: dict, tail: list[dict]) -> dict:
-    j = {k: v for k, v in h.items() if k not in ("builds", "last", "statics", "static_touch", "family", "light")}
+    j = {k: v for k, v in h.items() if k not in ("builds", "last", "statics", "static_touch", "family", "light", "quick_light")}
     j["builds"] = copy.deepcopy(h["builds"]) + tail
     return j
 
@@ -386,6 +520,9 @@ def main(tier: str) -> int:
     ck.proof(extra_targets=["Run/C10.vo", "Run/C11.vo"])
     n_rand = 6 if tier == "quick" else 36
     hs = fixed_histories() + [gen_history(ck.rng) for _ in range(n_rand)] + family_histories(ck.rng, tier)
+    for h in hs:
+        if h.pop("quick_light", False) and tier == "quick":
+            h["light"] = True          # quick tier: the un-interrupted run, twice and the fresh comparison only
     known = {f["id"]: f for f in known_for(PROP)}
     cert0 = "\n".join(f"{k}={v}" for k, v in DEFAULT_CERT)
 
@@ -434,6 +571,8 @@ def main(tier: str) -> int:
 
     # --- Coq: correspondence of every real run with the model (Run.C10.case) + recovery comparisons (Run.C11.rcase)
     terms, tmeta, rterms, rmeta, unmodelled = [], [], [], [], 0
+    oracles: list = []
+    crash_res_of: dict = {}
 
     def add_case(job, bi, b, tag):
         nonlocal unmodelled
@@ -444,11 +583,12 @@ def main(tier: str) -> int:
         except Unmodelled:
             unmodelled += 1
 
-    def add_r(job, b_rec, pre, mid, oracle, tag):
+    def add_r(job, b_rec, pre, mid, oracle, tag, prev=None):
         nonlocal unmodelled
         try:
-            rterms.append(rcase_term(job, b_rec, pre, mid, oracle))
+            rterms.append(rcase_term(job, b_rec, pre, mid, oracle, prev))
             rmeta.append((tag, job, b_rec))
+            oracles.append(oracle)
         except Unmodelled:
             unmodelled += 1
 
@@ -465,9 +605,9 @@ def main(tier: str) -> int:
         # C11_fresh: vs the build into an empty directory / into the tree holding only jmc.txt and the static content
         if real_result(fr["builds"][0]) == "RDone":
             add_r(base_jobs[hi], first, first["before"], first["before"], fr["builds"][0]["after"],
-                  ("fresh-vs-statics-only" if h["statics"] else "fresh-vs-empty", hi))
+                  ("fresh-vs-statics-only" if h["statics"] else "fresh-vs-empty", hi), prev=prev_overrides(r["builds"], nb))
         # C11_twice
-        add_r(base_jobs[hi], second, first["after"], first["after"], first["after"], ("twice", hi))
+        add_r(base_jobs[hi], second, first["after"], first["after"], first["after"], ("twice", hi), prev=prev_overrides(r["builds"], nb + 1))
     for (hi, kind, k), job, r in zip(meta, crash_jobs, crash_res):
         if "runner_error" in r:
             ck.violation(dict(kind="runner-error", history=job, log=r["runner_error"]), no_input=True)
@@ -479,7 +619,9 @@ def main(tier: str) -> int:
         add_case(job, len(r["builds"]) - 1, brec, ("recovery-build", hi, kind, k))
         oracle = base_res[hi]["builds"][nb]["after"]
         torn_b = next((b for b in r["builds"][nb:-1] if is_torn_cert(job, b)), bc)
-        add_r(job, brec, bc["before"], brec["before"], oracle, ("recover", hi, kind, k, torn_b))
+        crash_res_of[id(brec)] = [bk for bk in r["builds"][nb:-1] if real_result(bk) == "CRASH"]
+        add_r(job, brec, bc["before"], brec["before"], oracle, ("recover", hi, kind, k, torn_b),
+              prev=prev_overrides(r["builds"], len(r["builds"]) - 1))
 
     codes, errs = c10.eval_codes(PROP, terms, prefix="cases")
     n_perm = retry_override_orders(tmeta, codes, errs)
@@ -506,12 +648,29 @@ def main(tier: str) -> int:
         obj["tag"] = [str(x) for x in tag[:4]]
         ck.violation(obj, no_input=not (code & 120))
     n_r_bad, n_recover, n_refused = 0, 0, 0
-    for (tag, job, b_rec), rc in zip(rmeta, rcodes):
+    n_dropped = 0
+    for ((tag, job, b_rec), rc), oracle in zip(zip(rmeta, rcodes), oracles):
         if tag[0] == "recover":
             n_recover += 1
             n_refused += real_result(b_rec) == "RRefused"
         res = real_result(b_rec)
         unexpected = res not in ("RDone", "RRefused")
+        if unexpected and tag[0] == "recover" and refused_for_tag(b_rec) and any(
+                shielded_tag_kill(job, bk) for bk in crash_res_of[id(b_rec)]):
+            unexpected = False          # refused (malformed shielded tag after the kill), nothing modified
+            n_refused += 1
+        if rc and rc & 8 and not unexpected:
+            # stale files ONLY below data/<o>, o overridden / linked by an earlier successful build and not by this one
+            fid = "C11-dropped-override-left-behind"
+            if fid in known or fid in PROPOSED_KNOWN:
+                n_dropped += 1
+                ck.known(fid, (known.get(fid) or PROPOSED_KNOWN[fid])["what"])
+                rc &= ~8
+        if rc and rc & 2 and not unexpected and not c10.detect_variant().get("tick_refresh") and stale_tick_only(job, b_rec, oracle):
+            fid = "C11-stale-own-tick-entry"
+            if fid in known or fid in PENDING_FIXES:
+                ck.known(fid, (known.get(fid) or PENDING_FIXES[fid])["what"])
+                rc &= ~2
         if not rc and not unexpected:
             continue
         if tag[0] == "recover" and is_torn_cert(job, tag[4]) and rc == 2 and not unexpected:
@@ -543,7 +702,7 @@ def main(tier: str) -> int:
         programs=len(hs), histories=len(hs), crash_points=len(crash_points), oserror_points=len(meta) - len(crash_points),
         recoveries=n_recover, recoveries_refused=n_refused, model_cases=len(terms), recovery_cases=len(rterms),
         disagreements_checked=n_case_bad + n_r_bad, unmodelled_skipped=unmodelled,
-        override_orders_settled_by_permutation=n_perm,
+        override_orders_settled_by_permutation=n_perm, dropped_override_comparisons=n_dropped,
         static_name_families=dict(
             families=[f["name"] for f in STATIC_FAMILIES],
             histories=sum(1 for h in hs if h.get("family")), with_crash_enumeration=sorted(h["family"] for h in hs if h.get("family") and not h.get("light")),
@@ -584,7 +743,7 @@ def replay(path: str) -> int:
         first = r["builds"][nb]
         fr = run_jobs([obj["fresh_job"]])[0]["builds"][0]
         print("actual: last build:", real_result(first), "| fresh build:", real_result(fr), fr["exc"])
-        rt = rcase_term(job, first, first["before"], first["before"], fr["after"])
+        rt = rcase_term(job, first, first["before"], first["before"], fr["after"], prev_overrides(r["builds"], nb))
         rcodes, rerrs = eval_rcodes([rt], prefix="replay_r")
         bits = [RBITS[k] for k in RBITS if rcodes[0] and rcodes[0] & k]
         got, want = dict(first["after"]), dict(fr["after"])
@@ -602,7 +761,8 @@ def replay(path: str) -> int:
         b.pop("oserror_path", None)
     clean_job["builds"] = clean_job["builds"][:-1]
     orc = run_jobs([clean_job])[0]["builds"][-1]
-    rt = rcase_term(job, last, r["builds"][-2]["before"], r["builds"][-2]["after"], orc["after"])
+    rt = rcase_term(job, last, r["builds"][-2]["before"], r["builds"][-2]["after"], orc["after"],
+                    prev_overrides(r["builds"], len(r["builds"]) - 1))
     rcodes, rerrs = eval_rcodes([rt], prefix="replay_r")
     bits = [RBITS[k] for k in RBITS if rcodes[0] and rcodes[0] & k]
     got, want = dict(last["after"]), dict(orc["after"])
